@@ -502,3 +502,112 @@ def _char_set_of_predicate(e):
                 out |= {chr(v) for v in vs}
         return out
     return None
+
+
+# ---- T-hdr ---------------------------------------------------------------------------------------------
+
+def t_hdr(F, R):
+    """Header::new_with of each family: (type nibble -> packet type, required flag nibble) equals the OASIS
+    table; PUBLISH decodes dup/qos/retain from bits 3, 2..1, 0 with QoS through from_u8; everything else
+    (unknown nibble, wrong flags) returns InvalidHeader."""
+    n = 0
+    for fam, spec in (("v3", S.PACKET_TYPES_V3), ("v5", S.PACKET_TYPES_V5)):
+        fid = "%s::packet::Header::new_with" % fam
+        b = nbody(F, fid)
+        if b is None:
+            raise AnchorLost(fid)
+        m = None
+        for x in walk_all(b):
+            if x.get("k") == "Match" and x.get("src") == "Normal":
+                sc = strip(x["scrut"])
+                if sc.get("k") == "Binary" and sc["op"] == "Shr" and pp(strip(sc["l"])) == "hd" and const_eval(sc["r"]) == 4:
+                    m = x
+                    break
+        if m is None:
+            raise AnchorLost("%s: match hd >> 4" % fid)
+        got = {}
+        default_err = False
+        for arm in m["arms"]:
+            vals = pat_values(arm["pat"], domain=range(16))
+            body = unblock(arm["body"])
+            if vals == "any":
+                errs = [y["variant"] for y in walk_all(body) if y.get("k") == "Adt" and y.get("adt") == "common::error::Error"]
+                default_err = errs == ["InvalidHeader"] and (body.get("k") == "Return" or body.get("ty") == "!")
+                continue
+            for v in vals:
+                typ = None
+                for y in walk_all(body):
+                    if y.get("k") == "Adt" and y.get("adt") == "%s::packet::PacketType" % fam:
+                        typ = y["variant"]
+                if body.get("k") == "Tuple" and len(body["items"]) == 2:
+                    flags = _flag_pred(body["items"][1])
+                    got[v] = (typ, flags)
+                else:
+                    got[v] = (typ, _publish_fields(body))
+        R.check(default_err, "T-hdr", "%s/default" % fam, "%s: unknown type nibbles are not rejected with InvalidHeader" % fid, where=loc(m))
+        for nib in range(16):
+            want = spec.get(nib)
+            g = got.get(nib)
+            n += 1
+            if want is None:
+                R.check(g is None, "T-hdr", "%s/nibble-%d" % (fam, nib), "%s accepts reserved packet type %d as %s" % (fid, nib, g), where=loc(m))
+                continue
+            name, fl = want
+            if g is None:
+                R.fail("T-hdr", "%s/nibble-%d" % (fam, nib), "%s rejects packet type %d (%s)" % (fid, nib, name), where=loc(m))
+                continue
+            if fl == "publish":
+                R.check(g[0] == name and g[1] == {"dup": 0b1000, "qos": (0b0110, 1), "retain": 0b0001}, "T-hdr", "%s/nibble-%d" % (fam, nib),
+                        "%s decodes PUBLISH flags as %s" % (fid, g[1]), where=loc(m))
+            else:
+                ok = g[0] == name and g[1] is not None and all(g[1](f) == (f == fl) for f in range(16))
+                R.check(ok, "T-hdr", "%s/nibble-%d" % (fam, nib),
+                        "%s: type %d maps to %s with flag test accepting %s; specification: %s with flags %s" % (
+                            fid, nib, g[0], [f for f in range(16) if g[1] and g[1](f)], name, bin(fl)), where=loc(m))
+        # flags_ok == false -> InvalidHeader, then Ok(Header{typ, dup:false, qos:Level0, retain:false, remaining_len})
+        txt = pp(b)
+        R.check("if Not(flags_ok) { { return Result::Err{0: " in txt and "InvalidHeader" in txt.split("if Not(flags_ok)")[1][:120], "T-hdr", "%s/flags-rejected" % fam,
+                "%s does not return InvalidHeader when the flag nibble is wrong" % fid, where=fid)
+        tail = [x for x in walk_all(b) if x.get("k") == "Adt" and x.get("adt") == "%s::packet::Header" % fam]
+        ok = any({f["name"]: pp(strip(f["e"])) for f in t["fields"]} == {"typ": "typ", "dup": "false", "qos": "QoS::Level0{}", "retain": "false", "remaining_len": "remaining_len"} for t in tail)
+        R.check(ok, "T-hdr", "%s/plain-header" % fam, "%s does not build Header{typ, dup:false, qos:Level0, retain:false, remaining_len}" % fid, where=fid)
+    R.floor("T-hdr", "nibbles", n, 32)
+
+
+def _flag_pred(e):
+    """Predicate over the low nibble f for `hd & MASK == K`."""
+    e = unblock(e)
+    if e.get("k") == "Binary" and e["op"] == "Eq":
+        l = unblock(strip(e["l"]))
+        k = const_eval(e["r"])
+        if l.get("k") == "Binary" and l["op"] == "BitAnd" and pp(strip(l["l"])) == "hd" and k is not None:
+            mask = const_eval(l["r"])
+            if mask is not None:
+                return lambda f, mask=mask, k=k: (f & mask) == k and (mask & 0xF) == 0xF or ((f & mask) == k and mask == 0xF)
+    return None
+
+
+def _publish_fields(body):
+    """{"dup": mask, "qos": (mask, shift), "retain": mask} from the PUBLISH arm's Header{..} construction."""
+    out = {}
+    for y in walk_all(body):
+        if y.get("k") == "Adt" and y.get("adt", "").endswith("packet::Header"):
+            for f in y["fields"]:
+                e = unblock(strip(f["e"]))
+                if f["name"] in ("dup", "retain") and e.get("k") == "Binary":
+                    l = unblock(strip(e["l"]))
+                    if l.get("k") == "Binary" and l["op"] == "BitAnd" and pp(strip(l["l"])) == "hd":
+                        mask = const_eval(l["r"])
+                        k = const_eval(e["r"])
+                        if (e["op"] == "Ne" and k == 0) or (e["op"] == "Eq" and k == mask):
+                            out[f["name"]] = mask
+                if f["name"] == "qos":
+                    while e.get("k") == "Try":
+                        e = unblock(strip(e["e"]))
+                    if e.get("k") == "Call" and e["fn"].get("def") == "common::types::QoS::from_u8":
+                        a = unblock(strip(e["args"][0]))
+                        if a.get("k") == "Binary" and a["op"] == "Shr":
+                            l = unblock(strip(a["l"]))
+                            if l.get("k") == "Binary" and l["op"] == "BitAnd" and pp(strip(l["l"])) == "hd":
+                                out["qos"] = (const_eval(l["r"]), const_eval(a["r"]))
+    return out
